@@ -15,7 +15,7 @@ written by an independent sub-agent. Steps, all in the scratch worktree /tmp/see
 """
 import json, os, re, shutil, subprocess, sys, time
 
-WT = "/tmp/seedeval-wt"
+WT = "/tmp/seedeval-wt-%d" % os.getpid()
 ROOT = os.path.dirname(os.path.dirname(os.path.abspath(__file__)))
 ENV = dict(os.environ, GOFLAGS="-mod=mod", GOPROXY="off", GOSUMDB="off", GOTOOLCHAIN="local")
 
@@ -55,11 +55,11 @@ def main():
     runpat = "^(" + "|".join(tests) + ")$"
     patch = os.path.join(d, "patch.diff")
     touched = sorted(set(os.path.dirname(m) for m in re.findall(r"^\+\+\+ b/(\S+)", open(patch).read(), re.M)))
-    goflags = "-ldflags=-checklinkname=0" + (" -tags '" + tags.replace(",", " ") + "'" if tags else "")
+    goflags = ("-race " if opt.get("--race") else "") + "-ldflags=-checklinkname=0" + (" -tags '" + tags.replace(",", " ") + "'" if tags else "")
     res = {"property": prop, "source_dir": d, "demo": demo, "demo_package": pkg, "touched_packages": touched, "steps": {}}
 
     head = subprocess.run(["git", "-C", "/repo", "rev-parse", "HEAD"], capture_output=True, text=True).stdout.strip()
-    sh("git checkout -q --detach %s && git checkout -q -- . && git clean -fdq" % head)
+    subprocess.run(["git", "-C", "/repo", "worktree", "add", "-q", "--detach", WT, head], check=True)
     res["repo_head"] = head[:10]
     os.makedirs(os.path.join(WT, pkg), exist_ok=True)
     shutil.copy(os.path.join(d, demo), os.path.join(WT, pkg, "zz_seed_" + demo))
@@ -74,6 +74,7 @@ def main():
     rc, out = sh("git apply --whitespace=nowarn %s" % patch)
     res["steps"]["apply"] = {"rc": rc, "out": out[-300:]}
     if rc != 0:
+        cleanup()
         finish(res, d, prop, False)
         return
     rcbuild, outbuild = sh("go build %s" % pk)
@@ -96,8 +97,20 @@ def main():
         rc, out = sh("./check %s quick" % cid, cwd=ROOT, env=env, timeout=3000)
         lines = [l[:400] for l in out.splitlines() if l.startswith(("VIOLATION", "SUMMARY", "INCONCLUSIVE"))]
         res["checks"][cid] = {"exit": rc, "detected": rc == 1, "lines": lines[:12], "wall_s": round(time.time() - t0)}
-    sh("git checkout -q -- . && git clean -fdq")
+    cleanup()
     finish(res, d, prop, confirmed)
+
+
+def cleanup():
+    subprocess.run(["git", "-C", "/repo", "worktree", "remove", "--force", WT])
+    for f in os.listdir(os.path.join(ROOT, "harness")):
+        if f.startswith("go.alt.") and hashlib_tag() in f:
+            os.remove(os.path.join(ROOT, "harness", f))
+
+
+def hashlib_tag():
+    import hashlib
+    return hashlib.sha1(WT.encode()).hexdigest()[:8]
 
 
 def finish(res, d, prop, confirmed):
